@@ -1,2 +1,131 @@
-(* C17 - stub, theorems follow *)
-From BHS Require Import ExportImport.
+(* C17 - Export then import reproduces the longest chain; bad files are refused.
+   This file contains only the property theorems, each closed by `exact`.
+
+   Vocabulary (coq/theories/ExportImport.v): a table is the headers table in rowid order, a row with
+   its header_state; a file is the list of its csv records (column line first); [hashf] is the
+   header hash function (any function: the one that labelled the rows); [startup hashf bsz ckh ckhash
+   genesis prepared table file] is database.Init: (started?, table afterwards); bsz is the import
+   batch size (500 in the code), (ckh, ckhash) the newest checkpoint. *)
+From Coq Require Import ZArith NArith List String.
+From BHS Require Import Work ExportImport ExportImportProofs.
+Import ListNotations.
+Open Scope Z_scope.
+
+(* Exporting a chain and importing the produced file yields exactly the exported rows: same hashes
+   at the same heights, same fields, same work and cumulated work. *)
+Theorem C17_roundtrip : forall (hashf : src -> N) (rows : list xrow),
+  chain_ok hashf rows -> Forall fields_ok rows -> import hashf (export rows) = Ok rows.
+Proof. exact roundtrip. Qed.
+
+(* ... and through the whole start-up path (batches, ON CONFLICT DO NOTHING, consistency validation):
+   an empty database started on the exported file holds exactly the exported chain, every row on
+   the longest chain.  Hash values of a store are distinct (the hash is the primary key). *)
+Theorem C17_roundtrip_startup : forall (hashf : src -> N) (bsz : nat) (ckh : Z) (ckhash : N) (genesis : xrow),
+  (0 < bsz)%nat -> forall (rows : list xrow) (r : xrow),
+  chain_ok hashf rows -> Forall fields_ok rows -> NoDup (map x_hash rows) ->
+  0 <= ckh -> nth_error rows (Z.to_nat ckh) = Some r -> x_hash r = ckhash ->
+  startup hashf bsz ckh ckhash genesis true [] (Some (export rows)) = (true, map (fun x => (x, st_longest)) rows).
+Proof. exact roundtrip_startup. Qed.
+
+(* What is exported from a table is its longest-chain rows in height order: stale and orphan headers
+   are left out (the row selection of the SQL query; [longest_of_sorted] below ties it to a chain). *)
+Theorem C17_export_selects_longest : forall (t : table) (rows : list xrow),
+  Permutation.Permutation (map fst (filter (fun p => N.eqb (snd p) st_longest) t)) rows ->
+  heights_from 0 rows -> export_db t = export rows.
+Proof. exact export_db_longest. Qed.
+
+(* Bad files are refused.  (1) A record with a wrong number of fields or a field that does not parse
+   (strconv range checks: int32 version, uint32 nonce and bits, int64 timestamp, <= 64 hex digits). *)
+Theorem C17_import_refuses_malformed : forall (hashf : src -> N) (bsz : nat) (ckh : Z) (ckhash : N) (genesis : xrow),
+  (0 < bsz)%nat -> forall (hdr : record) (recs : list record),
+  Exists (fun rec => good_record (List.length hdr) rec = false) recs ->
+  fst (startup hashf bsz ckh ckhash genesis true [] (Some (hdr :: recs))) = false.
+Proof. exact refuses_malformed_row. Qed.
+
+(* (2) no readable file, or a file without even the column line *)
+Theorem C17_import_refuses_missing : forall (hashf : src -> N) (bsz : nat) (ckh : Z) (ckhash : N) (genesis : xrow),
+  startup hashf bsz ckh ckhash genesis true [] None = (false, []) /\
+  startup hashf bsz ckh ckhash genesis true [] (Some []) = (false, []).
+Proof. exact refuses_missing_file. Qed.
+
+(* (3) inconsistent count / heights: no rows at all, or a row lost to a hash conflict *)
+Theorem C17_import_refuses_no_rows : forall (hashf : src -> N) (bsz : nat) (ckh : Z) (ckhash : N) (genesis : xrow),
+  (0 < bsz)%nat -> forall f, import hashf f = Ok [] ->
+  fst (startup hashf bsz ckh ckhash genesis true [] (Some f)) = false.
+Proof. exact refuses_no_rows. Qed.
+
+Theorem C17_import_refuses_wrong_count : forall (hashf : src -> N) (bsz : nat) (ckh : Z) (ckhash : N) (genesis : xrow),
+  (0 < bsz)%nat -> forall f rows, import hashf f = Ok rows ->
+  List.length (db_insert_all [] rows) <> List.length rows ->
+  fst (startup hashf bsz ckh ckhash genesis true [] (Some f)) = false.
+Proof. exact refuses_wrong_count. Qed.
+
+(* (4) the block at the newest checkpoint height is missing or has a different hash *)
+Theorem C17_import_refuses_checkpoint : forall (hashf : src -> N) (bsz : nat) (ckh : Z) (ckhash : N) (genesis : xrow),
+  (0 < bsz)%nat -> forall f rows, import hashf f = Ok rows ->
+  ~ (exists r, 0 <= ckh /\ nth_error rows (Z.to_nat ckh) = Some r /\ x_hash r = ckhash) ->
+  fst (startup hashf bsz ckh ckhash genesis true [] (Some f)) = false.
+Proof. exact refuses_checkpoint. Qed.
+
+(* All refusals at once: whatever a start on an empty database accepts is a complete import of the
+   file: one longest-chain row per record, at least one, with the checkpoint hash at the checkpoint height. *)
+Theorem C17_import_refuses : forall (hashf : src -> N) (bsz : nat) (ckh : Z) (ckhash : N) (genesis : xrow),
+  (0 < bsz)%nat -> forall f t,
+  startup hashf bsz ckh ckhash genesis true [] f = (true, t) ->
+  exists f' rows, f = Some f' /\ import hashf f' = Ok rows /\ t = map (fun x => (x, st_longest)) rows /\ rows <> [] /\
+    exists r, 0 <= ckh /\ nth_error rows (Z.to_nat ckh) = Some r /\ x_hash r = ckhash.
+Proof. exact accepted_is_import. Qed.
+
+(* A database that already holds headers is never overwritten by an import. *)
+Theorem C17_nonempty_db_untouched : forall (hashf : src -> N) (bsz : nat) (ckh : Z) (ckhash : N) (genesis : xrow),
+  forall (t : table) (f : option file), t <> [] ->
+  startup hashf bsz ckh ckhash genesis true t f = (true, t).
+Proof. exact nonempty_untouched. Qed.
+
+(* "A later start on the same database does not silently accept what the failed import left behind":
+     forall hashf bsz ckh ckhash genesis, 0 < bsz -> second_start_sound (startup hashf bsz ckh ckhash genesis)
+   is FALSE for the code as it is (known finding C17-second-start-accepts-leftovers): batches committed
+   before a bad row stay, and so does everything when the validation fails; the next start sees
+   count > 0 and skips import and validation. *)
+Theorem C17_second_start_refuted :
+  ~ (forall hashf bsz ckh ckhash genesis, (0 < bsz)%nat -> second_start_sound (startup hashf bsz ckh ckhash genesis)).
+Proof. exact second_start_refuted. Qed.
+
+(* the same with the batch size of the code: a failed validation leaves every row behind *)
+Theorem C17_second_start_refuted_500 :
+  ~ (forall hashf ckh ckhash genesis, second_start_sound (startup hashf 500 ckh ckhash genesis)).
+Proof. exact second_start_refuted_500. Qed.
+
+(* With the proposed repair (build/proposed-fixes/C17-1.diff, model startup_fixed) the full statement holds,
+   and nothing else changes: same verdicts, same table whenever the start succeeds. *)
+Theorem C17_second_start_fixed : forall (hashf : src -> N) (bsz : nat) (ckh : Z) (ckhash : N) (genesis : xrow),
+  second_start_sound (startup_fixed hashf bsz ckh ckhash genesis).
+Proof. exact second_start_fixed. Qed.
+
+Theorem C17_fixed_refusal_leaves_nothing : forall (hashf : src -> N) (bsz : nat) (ckh : Z) (ckhash : N) (genesis : xrow),
+  forall f, fst (startup hashf bsz ckh ckhash genesis true [] f) = false ->
+  startup_fixed hashf bsz ckh ckhash genesis true [] f = (false, []).
+Proof. exact refuses_fixed. Qed.
+
+Theorem C17_fixed_same_otherwise : forall (hashf : src -> N) (bsz : nat) (ckh : Z) (ckhash : N) (genesis : xrow),
+  forall p t f,
+  fst (startup_fixed hashf bsz ckh ckhash genesis p t f) = fst (startup hashf bsz ckh ckhash genesis p t f) /\
+  (fst (startup hashf bsz ckh ckhash genesis p t f) = true ->
+   startup_fixed hashf bsz ckh ckhash genesis p t f = startup hashf bsz ckh ckhash genesis p t f).
+Proof. exact fixed_same_otherwise. Qed.
+
+Print Assumptions C17_roundtrip.
+Print Assumptions C17_roundtrip_startup.
+Print Assumptions C17_export_selects_longest.
+Print Assumptions C17_import_refuses_malformed.
+Print Assumptions C17_import_refuses_missing.
+Print Assumptions C17_import_refuses_no_rows.
+Print Assumptions C17_import_refuses_wrong_count.
+Print Assumptions C17_import_refuses_checkpoint.
+Print Assumptions C17_import_refuses.
+Print Assumptions C17_nonempty_db_untouched.
+Print Assumptions C17_second_start_refuted.
+Print Assumptions C17_second_start_refuted_500.
+Print Assumptions C17_second_start_fixed.
+Print Assumptions C17_fixed_refusal_leaves_nothing.
+Print Assumptions C17_fixed_same_otherwise.
